@@ -49,6 +49,7 @@ ASSUMPTIONS = [
     "ExtendedEOF(embedding=1) is compared with EOF for center=True only (ExtendedEOF always centres its embedded matrix)",
     "randomized SparsePCA is enumerated only with sketch sizes k+oversample >= rank of the data, where the sketch is lossless",
     "canonical correlations of a fitted CCA model are observed as numpy Pearson correlations of its paired scores (normalisation-free)",
+    "real data stored as complex128 reaches scipy svds(lobpcg) for truncated solvers; that route is compared at 1e-5, all others at 1e-9 (same route) / 1e-7",
 ]
 TALLY_KEYS = ("pair", "model", "solver", "spec")
 TRUSTED = ["statsmodels import shim (cross-set constructors)"]
@@ -58,6 +59,7 @@ GRID = {1: (1, 1), 3: (3, 1), 4: (2, 2), 6: (3, 2), 9: (3, 3)}
 LATS = {1: [40.0], 2: [-30.0, 50.0], 3: [-60.0, 10.0, 75.0]}
 TOL_SAME = 1e-9  # same algorithmic route on both sides
 TOL_DIFF = 1e-7  # different routes / randomized sketches (DESIGN 4.3)
+TOL_LOBPCG = 1e-5  # complex storage through scipy svds(lobpcg): iterative, not a lossless sketch
 ALPHAS = {"MCA": [1.0, 1.0], "CCA": [0.0, 0.0], "RDA": [0.0, 1.0]}
 ALPHA_ARG = {"MCA": 1.0, "CCA": 0.0, "RDA": [0.0, 1.0]}  # "CPCCA with alpha = 1, 0 and (0, 1)"
 
@@ -95,7 +97,11 @@ def cases(tier, seed):
                     for std, cl in itertools.product(_ff(), _ff()):
                         if q and (variant or spec != "geometric") and (std or cl):
                             continue
+                        if not q and (variant or (n, px, py) not in tall) and std != cl:
+                            continue
                         for pca in (False, "all", 2):
+                            if not q and variant and pca == 2 and spec != "geometric":
+                                continue
                             if n - 1 < max(px, py) and named != "MCA":
                                 continue
                             kmax = min(px, py) if pca != 2 else 2
@@ -104,6 +110,8 @@ def cases(tier, seed):
                                     if variant and solver == "randomized" and k >= kmax:
                                         continue  # scipy svds documents k < min(shape)
                                     if q and variant and solver != "full" and pca != "all":
+                                        continue
+                                    if variant == "Hilbert" and solver == "randomized":
                                         continue
                                     out.append(dict(pair="named_vs_cpcca", model=variant + named, named=named, variant=variant, shape=[n, px, py], spec=spec,
                                                     standardize=std, coslat=cl, weights=False, use_pca=pca, n_modes=k, solver=solver,
@@ -131,8 +139,8 @@ def cases(tier, seed):
         for (n, p) in ([(6, 4), (4, 6)] if q else [(8, 1), (6, 4), (4, 6), (12, 6)]):
             for spec in (["geometric", "flat_pair", "rank_def"] if q else list(D.SPECTRA)):
                 for c, std, cl, w in itertools.product([True, False], _ff(), _ff(), _ff()):
-                    if q and sum((not c, std, cl, w)) > 1:
-                        continue
+                    if (q or storage == "float") and sum((not c, std, cl, w)) > 1:
+                        continue  # float storage is the identical code path: single flags suffice
                     for k in range(1, min(n, p) + 1):
                         for solver in ("full", "auto", "randomized"):
                             if storage != "float" and solver == "randomized" and k >= min(n, p):
@@ -198,6 +206,8 @@ def cases(tier, seed):
                         if solver == "randomized":
                             # every sketch size that still spans the range of the data: k+oversample in r_eff..min(n,p), and the default
                             overs = sorted({10} | {m - k for m in range(max(r_eff, k), min(n, p) + 1)})
+                            if sum((not c, std, cl, w)) > 1:
+                                overs = sorted({10, min(n, p) - k})
                             if q:
                                 overs = sorted({10, min(n, p) - k, max(r_eff, k) - k}) if not (std or cl or w) else [10, min(n, p) - k]
                         for ov in overs:
@@ -573,6 +583,10 @@ def run_complex_on_real(case, seed, feats):
     k = case["n_modes"]
     cast = case["storage"] != "float"
     tol = TOL_SAME if not cast else TOL_DIFF
+    if cast and case["solver"] != "full":
+        # complex storage + truncated solver = scipy.sparse.linalg.svds(solver="lobpcg"), an ITERATIVE eigensolver whose
+        # vectors stall around sqrt(eps) on close spectra (1.8e-7 observed on near_equal_var); every mutation moves >= 1e-2
+        tol = TOL_LOBPCG
     C = Cmp(case["model"], feats)
     if case["base"] == "EOF":
         n, p = case["shape"]
